@@ -413,6 +413,7 @@ func (c *c07) buildCases(thorough bool) []*c07Case {
 		{"text", "hello world", nil, false, true},
 		{"long", strings.Repeat("x", 3000), nil, false, true},
 		{"blocked-feecollector", authtypes.NewModuleAddress(authtypes.FeeCollectorName).String(), nil, false, true},
+		{"blocked-holder-distribution", authtypes.NewModuleAddress("distribution").String(), nil, false, true},
 		{"opchild-module", e.L2.Authority, nil, false, true},
 		{"nonascii", "é中🙂", nil, false, true},
 	}
@@ -561,6 +562,8 @@ func checkC07(run *mon.Run, rng *mon.Rand, thorough bool) {
 			panic(r.ErrString())
 		}
 	}
+	// a blocked module account that already holds bridged tokens (e.g. collected fees)
+	base.L2.FundModule("distribution", sdk.NewCoin(base.L2Denom("uinit"), math.NewIntFromUint64(1<<63).MulRaw(4)))
 	cases := c.buildCases(thorough)
 	run.Extra["input_classes"] = len(cases)
 	for _, cs := range cases {
